@@ -454,6 +454,7 @@ func runPassLoop(c *core.Ctx) {
 				} else {
 					c.Fail(key, call.Pos(), "in %s a failing repository collection (call at %s) ends the store-wide pass: the remaining repositories are not collected in that pass", c.P.FuncName(fn), c.P.Pos(call.Pos()))
 				}
+				passSince(c, fn, h)
 			})
 		}
 		if !found {
@@ -1202,11 +1203,19 @@ func init() {
 					}
 					key := "insert-initialises:" + kn(name)
 					okInit := false
+					stale := token.NoPos
 					for f, vals := range structStores(an.Origin(mu.Value)) {
 						_ = f
 						for _, v := range vals {
 							if isTimeType(v.Type()) {
 								okInit = true
+								// the clock is read while the cache mutex is held: a stamp taken before the lock is older than the
+								// insertion by however long the lock was waited for (callbacks run under it), and the entry expires early
+								if now, _ := an.CallOf(an.Origin(v)); now != nil && an.IsFunc(now, "time", "Now") {
+									if held, reached := mustHeldAt(getLock(c), now); reached && held == 0 {
+										stale = now.Pos()
+									}
+								}
 							}
 						}
 					}
@@ -1217,6 +1226,8 @@ func init() {
 					}
 					if !okInit {
 						v.bad = "a new entry is inserted without setting its last-use time"
+					} else if stale != token.NoPos {
+						v.bad = fmt.Sprintf("the last-use time of a new entry is read from the clock at %s, before the cache mutex is taken (the entry is as much older than its insertion as the lock was waited for)", c.P.Pos(stale))
 					}
 				})
 			}
@@ -2333,4 +2344,123 @@ func pruneWrapper(h *ssa.Function, isPruneFn func(ssa.Value) bool) (int, bool) {
 		}
 	})
 	return pi, ok
+}
+
+// passSince: the pass skips repositories that were not modified since a threshold.  Where the pass is handed the time
+// of the tick that started it and the time of the tick before (d.gc(cur, prev) in a loop that receives cur from the
+// ticker and carries prev over), the threshold must not be derived from the tick just received: measured from the
+// current tick the window a repository has to be collected in shrinks from a whole tick interval to the slack, and a
+// repository whose garbage comes of age between two ticks is never visited again.  Judged only when the pass has one
+// static call, in a loop, and the arguments can be told apart (fresh receive from a channel / anything else).
+func passSince(c *core.Ctx, fn *ssa.Function, h *ssa.BasicBlock) {
+	isTime := func(t types.Type) bool { return isNamed(t, "time", "Time") }
+	var timeParams []*ssa.Parameter
+	for _, p := range fn.Params {
+		if isTime(p.Type()) {
+			timeParams = append(timeParams, p)
+		}
+	}
+	if len(timeParams) == 0 {
+		return
+	}
+	sites := c.P.Callers(fn)
+	if len(sites) != 1 || sites[0].Common().StaticCallee() != fn || sites[0].Common().IsInvoke() {
+		return
+	}
+	site := sites[0]
+	if loopHeader(site.Block()) == nil {
+		return
+	}
+	fresh := map[*ssa.Parameter]bool{}
+	for k, p := range fn.Params {
+		if !isTime(p.Type()) || k >= len(site.Common().Args) {
+			continue
+		}
+		switch x := an.Strip(site.Common().Args[k]).(type) {
+		case *ssa.UnOp:
+			if x.Op == token.ARROW {
+				fresh[p] = true
+			}
+		case *ssa.Extract:
+			if _, isSel := x.Tuple.(*ssa.Select); isSel {
+				fresh[p] = true
+			}
+		}
+	}
+	if len(fresh) == 0 {
+		return
+	}
+	var derive func(v ssa.Value, seen map[ssa.Value]bool, out map[*ssa.Parameter]bool)
+	derive = func(v ssa.Value, seen map[ssa.Value]bool, out map[*ssa.Parameter]bool) {
+		if v == nil || seen[v] || len(seen) > 200 {
+			return
+		}
+		seen[v] = true
+		switch x := v.(type) {
+		case *ssa.Parameter:
+			out[x] = true
+		case *ssa.Phi:
+			for _, e := range x.Edges {
+				derive(e, seen, out)
+			}
+		case *ssa.Call:
+			// start.Add(-grace), prev.Truncate(…): a time derived from its receiver
+			if sc := x.Call.StaticCallee(); sc != nil && sc.Signature.Recv() != nil && isTime(sc.Signature.Recv().Type()) && isTime(x.Type()) && len(x.Call.Args) > 0 {
+				derive(x.Call.Args[0], seen, out)
+			}
+		case *ssa.UnOp:
+			if x.Op == token.MUL {
+				for _, o := range an.Origins(x) {
+					if o != ssa.Value(x) {
+						derive(o, seen, out)
+					}
+				}
+				if al, isAl := x.X.(*ssa.Alloc); isAl && al.Referrers() != nil {
+					for _, ref := range *al.Referrers() {
+						if st, isSt := ref.(*ssa.Store); isSt && st.Addr == ssa.Value(al) {
+							derive(st.Val, seen, out)
+						}
+					}
+				}
+			}
+		default:
+			if o := an.Origin(v); o != v {
+				derive(o, seen, out)
+			}
+		}
+	}
+	judged, bad := false, false
+	var where token.Pos
+	an.Calls(fn, func(call ssa.CallInstruction) {
+		cc, isCall := call.(*ssa.Call)
+		if !isCall || !(an.IsMethod(cc, "time", "Time", "Before") || an.IsMethod(cc, "time", "Time", "After") || an.IsMethod(cc, "time", "Time", "Compare")) {
+			return
+		}
+		if b := cc.Block(); b != h && !(an.BlockReaches(h, b) && an.BlockReaches(b, h)) {
+			return
+		}
+		for _, a := range cc.Call.Args {
+			out := map[*ssa.Parameter]bool{}
+			derive(a, map[ssa.Value]bool{}, out)
+			for p := range out {
+				if !isTime(p.Type()) {
+					continue
+				}
+				judged = true
+				if fresh[p] {
+					bad = true
+					where = cc.Pos()
+				}
+			}
+		}
+	})
+	if !judged {
+		return
+	}
+	key := "since:" + kn(c.P.FuncName(fn))
+	if bad {
+		c.Fail(key, where, "in %s the ‘not modified since’ threshold a repository is skipped on (comparison at %s) is derived from the tick the ticker has just delivered, not from the tick before: a repository whose garbage comes of age between two ticks is skipped on every later pass", c.P.FuncName(fn), c.P.Pos(where))
+	} else {
+		c.Pass(key, fn.Pos(), "the ‘not modified since’ threshold of the pass is derived from the time of the tick before, not from the tick just received")
+	}
 }
